@@ -23,7 +23,8 @@ for p in props:
         engine="sipsp-pbt",
         level_claimed=dict(category="exploration", text=pl["level_text"], design_ref=pl.get("design_ref", "DESIGN.md §4 " + pid)),
         level_note=pl.get("level_note", "Trusted: Go toolchain, rapid v1.3.0, the hand-written reference models/oracles in harness/props. Sampling (plus the enumerated sub-spaces listed in the evidence) - not a proof of absence."),
-        technique=pl["technique"],
+        technique=pl["technique"] + ("; the thorough tier adds native coverage-guided fuzzing (go test -fuzz) through the same oracle"
+                                     if any(st.get("kind") == "fuzz" for st in pl["thorough"]) and "fuzz" not in pl["technique"].lower() else ""),
     ))
 m = dict(
     version=1,
